@@ -20,7 +20,7 @@ print("%d changes; first run: %d caught, %d missed\n" % (len(metas), caught, len
 for m in metas:
     if m["first_run"] != "caught" and m.get("note"):
         note = m["note"]
-        for pre in ("second round. ", "second round"):
+        for pre in ("second round. ", "second round", "third round. ", "third round"):
             if note.startswith(pre):
                 note = note[len(pre):]
         print("* **%s** - %s" % (m["id"], note[0].lower() + note[1:] if note else ""))
